@@ -89,35 +89,76 @@ func (c *Ctx) checkArgCountTestedOnTheListHandedOver(r *Report, rule string) {
 				if !isIf {
 					continue
 				}
-				bin, isBin := iff.Cond.(*ssa.BinOp)
-				if !isBin {
-					continue
+				cond, flip := iff.Cond, false
+				for {
+					u, isNot := cond.(*ssa.UnOp)
+					if !isNot || u.Op != token.NOT {
+						break
+					}
+					cond, flip = u.X, !flip
 				}
-				l, m, op := bin.X, bin.Y, bin.Op
-				if fieldRead(l, "MinArgs") {
-					l, m = m, l
-					switch op {
-					case token.LSS:
-						op = token.GTR
-					case token.GTR:
-						op = token.LSS
-					case token.LEQ:
-						op = token.GEQ
-					case token.GEQ:
-						op = token.LEQ
+				var l ssa.Value
+				edge := -1
+				switch x := cond.(type) {
+				case *ssa.BinOp:
+					l, edge = minArgsTest(x)
+				case *ssa.Call:
+					// a predicate of this module: wrongArgCount(fn, n) / enoughArgs(fn, n)
+					callee := x.Common().StaticCallee()
+					if callee == nil || callee.Blocks == nil || callee.Pkg != fn.Pkg {
+						break
+					}
+					for _, pb := range callee.Blocks {
+						pif, ok := pb.Instrs[len(pb.Instrs)-1].(*ssa.If)
+						if !ok {
+							continue
+						}
+						pbin, ok := pif.Cond.(*ssa.BinOp)
+						if !ok {
+							continue
+						}
+						pl, pedge := minArgsTest(pbin)
+						par, isPar := pl.(*ssa.Parameter)
+						if pedge < 0 || !isPar {
+							continue
+						}
+						// what the predicate answers when the count is below the minimum
+						bad := pb.Succs[1-pedge]
+						if len(bad.Instrs) == 0 {
+							continue
+						}
+						ret, ok := bad.Instrs[len(bad.Instrs)-1].(*ssa.Return)
+						if !ok || len(ret.Results) != 1 {
+							continue
+						}
+						res := ret.Results[0]
+						if phi, ok := res.(*ssa.Phi); ok && phi.Block() == bad {
+							for i, pred := range bad.Preds {
+								if pred == pb {
+									res = phi.Edges[i]
+								}
+							}
+						}
+						k, ok := res.(*ssa.Const)
+						if !ok || k.Value == nil || !types.Identical(k.Type().Underlying(), types.Typ[types.Bool]) {
+							continue
+						}
+						for i, fp := range callee.Params {
+							if fp == par && i < len(x.Common().Args) {
+								l = x.Common().Args[i]
+								if k.Value.String() == "true" {
+									edge = 1 // true means too few: the callback belongs on the false edge
+								} else {
+									edge = 0
+								}
+							}
+						}
 					}
 				}
-				if !fieldRead(m, "MinArgs") {
-					continue
+				if edge >= 0 && flip {
+					edge = 1 - edge
 				}
-				edge := -1
-				switch op {
-				case token.LSS: // l < MinArgs: the callback belongs on the false edge
-					edge = 1
-				case token.GEQ:
-					edge = 0
-				}
-				if edge >= 0 && onEdge(b, edge, call.Block()) && lengthOf(l, list, 0) {
+				if edge >= 0 && l != nil && onEdge(b, edge, call.Block()) && lengthOf(l, list, 0) {
 					ok = true
 				}
 			}
@@ -128,4 +169,33 @@ func (c *Ctx) checkArgCountTestedOnTheListHandedOver(r *Report, rule string) {
 	if n == 0 {
 		r.Undecided("%s: no call of Extension.Callback found in package eval", rule)
 	}
+}
+
+// minArgsTest: bin compares a count with the MinArgs field; returns the count and the edge (0 true,
+// 1 false) of an If on bin on which count >= MinArgs holds; edge -1 when bin is no such test.
+func minArgsTest(bin *ssa.BinOp) (ssa.Value, int) {
+	l, m, op := bin.X, bin.Y, bin.Op
+	if fieldRead(l, "MinArgs") {
+		l, m = m, l
+		switch op {
+		case token.LSS:
+			op = token.GTR
+		case token.GTR:
+			op = token.LSS
+		case token.LEQ:
+			op = token.GEQ
+		case token.GEQ:
+			op = token.LEQ
+		}
+	}
+	if !fieldRead(m, "MinArgs") {
+		return nil, -1
+	}
+	switch op {
+	case token.LSS:
+		return l, 1
+	case token.GEQ:
+		return l, 0
+	}
+	return nil, -1
 }
